@@ -46,6 +46,12 @@ impl LinkNameMatcher {
 
 impl Matcher for LinkNameMatcher {
     fn matches(&self, file_info: &WalkEntry, _: &mut MatcherIO) -> bool {
+        // A link that -L/-H resolves is not a link as far as the tests are
+        // concerned (its type is the target's); only broken links remain links.
+        if !file_info.file_type().is_symlink() {
+            return false;
+        }
+
         if let Some(target) = read_link_target(file_info) {
             self.pattern.matches(&target.to_string_lossy())
         } else {
